@@ -1,6 +1,6 @@
 use std::sync::LazyLock;
 
-use chrono::{Datelike, Duration, Local, LocalResult, NaiveDate, NaiveDateTime, TimeZone, Timelike};
+use chrono::{Datelike, Duration, Local, NaiveDate, NaiveDateTime, Timelike};
 use chrono_english::{parse_date_string, Dialect};
 use regex::Regex;
 
@@ -70,27 +70,15 @@ pub fn parse_datetime(s: &str) -> Result<(NaiveDateTime, NaiveDateTime), String>
                 }
             }
 
-            match Local.with_ymd_and_hms(year, month, day, 0, 0, 0) {
-                LocalResult::Single(date) => {
-                    let start = date
-                        .naive_local()
-                        .with_hour(hour_start)
-                        .unwrap()
-                        .with_minute(min_start)
-                        .unwrap()
-                        .with_second(sec_start)
-                        .unwrap();
-                    let finish = date
-                        .naive_local()
-                        .with_hour(hour_finish)
-                        .unwrap()
-                        .with_minute(min_finish)
-                        .unwrap()
-                        .with_second(sec_finish)
-                        .unwrap();
+            // The result is a pair of naive local times: build it directly instead of going through
+            // Local, which rejects days whose midnight is skipped or repeated by a DST switch,
+            // and reject out-of-range fields instead of unwrapping them.
+            let date = NaiveDate::from_ymd_opt(year, month, day);
+            let start = date.and_then(|d| d.and_hms_opt(hour_start, min_start, sec_start));
+            let finish = date.and_then(|d| d.and_hms_opt(hour_finish, min_finish, sec_finish));
 
-                    Ok((start, finish))
-                }
+            match (start, finish) {
+                (Some(start), Some(finish)) => Ok((start, finish)),
                 _ => Err("Error converting date/time to local: ".to_string() + s),
             }
         }
